@@ -181,7 +181,14 @@ func RunChild(name string, env []string, limit time.Duration) ChildResult {
 	}
 	defer os.Remove(f.Name())
 	cmd := exec.Command(os.Args[0], "-test.run", "^"+name+"$", "-test.count=1", "-test.timeout", fmt.Sprint(limit+30*time.Second))
-	cmd.Env = append(os.Environ(), env...)
+	// the child may die at an injected crash point, so anything it puts in
+	// its temp dir (t.TempDir included) is removed here, by the parent
+	tmp, err := os.MkdirTemp("", "verif-childtmp-*")
+	if err != nil {
+		return ChildResult{ExitCode: -1, Output: err.Error()}
+	}
+	defer os.RemoveAll(tmp)
+	cmd.Env = append(append(os.Environ(), env...), "TMPDIR="+tmp)
 	cmd.Stdout = f
 	cmd.Stderr = f
 	if err := cmd.Start(); err != nil {
